@@ -5,7 +5,7 @@ Oracle: the spec evaluator semEval (Lean, shares no code with the model's matche
 from . import engine, profiles
 from .engine import oracle_sem
 
-CORE = {'seq2', 'seq3', 'sor2', 'sor3', 'star1', 'star2', 'plus1', 'plus2', 'opt1', 'opt2', 'at1', 'at2', 'not_at1', 'not_at2'}
+CORE = {'seq1', 'sor1', 'seq2', 'seq3', 'sor2', 'sor3', 'star1', 'star2', 'plus1', 'plus2', 'opt1', 'opt2', 'at1', 'at2', 'not_at1', 'not_at2'}
 ORACLES = [('sem', oracle_sem)]
 
 
@@ -28,7 +28,7 @@ def run(tier: str) -> int:
     ind = oracle_independent_factory()
     oracles = ORACLES + [('independent', ind)]
     ps = [
-        profiles.systematic_profile('core', lambda k, f: k in CORE, False, 26, 150, oracles, actions_mode='void',
+        profiles.systematic_profile('core', lambda k, f: k in CORE, False, 30, 160, oracles, actions_mode='void',
                                     inputs=profiles.inputs_exhaustive(3, 5, cap_q=90, cap_t=700), per_tu=2, use_sem=True, heavy=True,
                                     ctx_names=['top', 'sor-first', 'seq-tail', 'seq-head', 'in-at', 'in-not_at', 'in-opt']),
         profiles.random_profile('rndcore', True, False, 20, 100, oracles, actions_mode='void',
